@@ -232,4 +232,24 @@ def check(ctx):
     from .dtypes import check_vectorize
 
     check_vectorize(ctx, "C13-g", ["bluebonnet.fluids.oil", "bluebonnet.fluids.water"])
+    # ---- C13-k: "at every input" includes integer pressure arrays and pressure arrays of any shape: the parents and the
+    # derivative functions form no integer-typed intermediate that can leave the int32 range (numpy wraps silently, the
+    # derivative function - or the scalar call - does not), and the parent of the GOR derivative fills its array
+    # result element by element (masks, not row numbers).  Shared with C11-f / C11-b.
+    from .. import intrange
+    from .c11 import check_split
+
+    if not intrange.selftest():
+        raise AnalysisError("integer-range analysis failed its built-in example")
+    for q_ in (WATER + "b_water_McCain", WATER + "b_water_McCain_dp", OIL + "solution_gor_Standing", OIL + "dgor_dpressure_Standing", OIL + "b_o_bubblepoint_Standing", OIL + "db_o_dgor_Standing"):
+        fi_ = P.functions.get(q_)
+        if fi_ is None:
+            continue
+        fs = intrange.analyse_function(fi_.node)
+        ctx.check(
+            not fs, "C13-k", q_ + ":integer intermediates", fi_.where(),
+            "with an integer pressure array (int32) and integer scalars, every product/power formed before a float operand joins stays below 2^31 over the declared input box: the parent's values (hence its derivative) are otherwise wrong where the derivative function is right",
+            signature="; ".join(x.expr for x in fs)[:160], overflowing=[f"line {x.node.lineno}: {x.expr} may reach {x.bound:.3g}" for x in fs],
+        )
+    check_split(ctx, "C13-k", "C13-k", names=["solution_gor_Standing"])
     ctx.floor("C13", len(ctx.obligs), 8, "derivative obligations")
